@@ -42,7 +42,7 @@ def directed(rng: random.Random) -> dict:
             {"k": "label", "n": "after2"}, {"k": "data", "d": "dl", "es": [E("after2"), E("after1")]}]
     outer = rng.choice([0x10, 0xFF, 0x100, 0x1234, 0x12345])
     kind = rng.choice(["const_then_inner_label", "const_then_inner_sym", "const_then_inner_const", "param_then_label", "loopvar_then_sym",
-                       "agreeing_shadow", "backward_label", "const_plain", "text_before_inner_table", "big_incbin", "position_from_symbol_set_twice"])
+                       "agreeing_shadow", "backward_label", "const_plain", "text_before_inner_table", "big_incbin", "position_from_symbol_set_twice", "spliced_label_in_braces", "text_with_escaped_quote"])
     if kind == "text_before_inner_table":
         t1 = [["41", "a"], ["42", "b"], ["43", "c"]]
         t2 = [["0141", "a"], ["0242", "b"], ["030303", "c"], ["04", "ab"]]
@@ -54,6 +54,21 @@ def directed(rng: random.Random) -> dict:
         body = [{"k": "org", "e": E(start)}, {"k": "table", "f": "narrow.tbl"}, {"k": "text", "t": "ab"}, st] + ([{"k": "call", "n": "mtxt", "as": []}] * 2 if wrap == "macro" else []) + \
                [{"k": "text", "t": "ca"}] + tail
         return {"prog": body, "files": {}, "tables": {"narrow.tbl": t1, "wide.tbl": t2}, "rom": "low", "family": "directed:" + kind}
+    if kind == "spliced_label_in_braces":
+        # a block argument that defines a label, expanded several times, each expansion in braces of its own: every label is where its bytes go
+        nop = {"k": "ins", "m": "nop", "shape": "imp", "sz": "", "e": None}
+        blk = {"blk": [{"k": "label", "n": "againq"}, {"k": "data", "d": "dl", "es": [E("againq")]}, nop]}
+        wrap = lambda: rng.choice([{"k": "block", "b": [{"k": "splice", "n": "pbody"}]}, {"k": "if", "c": E(1), "t": [{"k": "block", "b": [{"k": "splice", "n": "pbody"}]}]},  # noqa: E731
+                                   {"k": "block", "b": [nop, {"k": "block", "b": [{"k": "splice", "n": "pbody"}]}]}])
+        body = [{"k": "org", "e": E(start)}, {"k": "macro", "n": "severalq", "ps": ["pbody"], "b": [wrap() for _ in range(rng.randint(2, 4))]},
+                {"k": "call", "n": "severalq", "as": [blk]}] + tail
+        return {"prog": body, "files": {}, "tables": {}, "rom": "low", "family": "directed:" + kind}
+    if kind == "text_with_escaped_quote":
+        # strings with escaped quotes and backslashes, through .ascii and through a table: what is measured is what is emitted
+        t = rng.choice(["it\\'s", "\\'", "a\\'b\\'c", "say \\'hi\\'", "x\\\\y", "\\\\", "tab\\there"])
+        body = [{"k": "org", "e": E(start)}, {"k": "raw", "text": f".ascii '{t}'"}, {"k": "label", "n": "mid1"}, {"k": "raw", "text": ".table 'esc.tbl'"}, {"k": "raw", "text": f".text '{t}'"}] + tail + \
+               [{"k": "data", "d": "dl", "es": [E("mid1")]}]
+        return {"prog": body, "files": {}, "tables": {"esc.tbl": [["27", "'"], ["5c", "\\"], ["61", "a"], ["62", "b"], ["63", "c"], ["20", " "], ["69", "i"], ["74", "t"], ["73", "s"]]}, "rom": "low", "family": "directed:" + kind}
     if kind == "position_from_symbol_set_twice":
         # a `=` symbol used like a variable: set, used by a position move, set again, used again. Whatever value each move takes, the
         # labels after it must be where the bytes go (or the program is rejected)
